@@ -30,6 +30,11 @@ def step (s : DSt) (line : String) : DSt × String :=
     | .error .nilFn => (s, "reg err nil")
     | .error .cycle => (s, "reg err cycle")
     | .error .fuel => (s, "reg err FUEL")
+  | ["optreg", src, dst, ret, fails, tag] =>
+    -- an upcaster given as a `WithUpcast` option: registered like any other, a refusal is silent
+    match register s.g ⟨nat! src, nat! dst, nat! ret, bool! fails, nat! tag⟩ false with
+    | .ok g => ({ s with g := g }, "optreg")
+    | .error _ => (s, "optreg")
   | ["racereg", _] => (s, "racereg ok")
   | ["clear"] => ({ s with g := clear s.g }, "clear")
   | ["cleartype", t] => ({ s with g := clearType s.g (nat! t) }, "cleartype")
